@@ -81,7 +81,11 @@ def run_scenarios(ck, sc, site_of=None):
     lines = []
     for s in sc:
         rec = {k: s[k] for k in ("id", "ops", "prove_ops") if k in s}
-        if s["expect"]["res"] == "ok" and s["expect"]["ret"] and "prove_ops" not in s:
+        # (not for calls that merely ALLOCATE what they return: `append_point` constrains
+        # nothing, its coordinates are the caller's free witnesses)
+        last_op = s["ops"][-1].get("op") if s["ops"] else ""
+        if (s["expect"]["res"] == "ok" and s["expect"]["ret"] and "prove_ops" not in s
+                and last_op not in ("append_point", "point", "witness")):
             rec["sweep"] = {"max": nsweep}
         lines.append(json.dumps(rec))
     out = vlib.harness("prog_run", [], stdin="\n".join(lines) + "\n", timeout=6000,
